@@ -418,7 +418,24 @@ func nonEmptyFresh(v ssa.Value) bool {
 	return ok && arr.Len() >= 1 && sl.Low == nil && sl.High == nil
 }
 
+// isRangeIndex: the index of a `for i := range s` loop (phi+1 in go/ssa's
+// rangeindex lowering) or of the equivalent `for i := 0; i < n; i++` loop.
 func isRangeIndex(v ssa.Value) bool {
+	if p, ok := v.(*ssa.Phi); ok {
+		in := loopInit(p)
+		if len(in) != 1 || !ConstInt(0)(in[0]) {
+			return false
+		}
+		for _, e := range p.Edges {
+			if e == in[0] {
+				continue
+			}
+			if !BinOpV(token.ADD, func(x ssa.Value) bool { return x == ssa.Value(p) }, ConstInt(1))(e) {
+				return false
+			}
+		}
+		return true
+	}
 	b, ok := v.(*ssa.BinOp)
 	if !ok || b.Op != token.ADD || !ConstInt(1)(b.Y) {
 		return false
